@@ -121,6 +121,7 @@ class Merged:
         self.notes = []
         self.exhaustive = False
         self.errors = []
+        self.extra_distinct = 0   # distinct non-trivial cases counted by a native enumerator (distinct by construction)
 
     def add(self, e):
         self.evals += e['evals']
@@ -259,7 +260,8 @@ def finish(pid, tier, m, rule, t0, min_nontrivial=2, assumptions=None, extra=Non
         for s in m.samples[k]:
             samples.append({'class': k, 'case': jsonable(s)})
     samples = samples[:40]
-    cov = dict(evaluations=m.evals, distinct_nontrivial=len(m.nontrivial), rule=rule, samples=samples,
+    ndist = len(m.nontrivial) + m.extra_distinct
+    cov = dict(evaluations=m.evals, distinct_nontrivial=ndist, rule=rule, samples=samples,
                exhaustive=bool(m.exhaustive), classes=jsonable(dict(m.counters)), inconclusive=m.inconclusive,
                known_finding_hits=dict(m.known), known_finding_examples=jsonable(m.known_examples),
                excluded_by_construction=dict(m.excluded), notes=m.notes[:20])
@@ -272,13 +274,13 @@ def finish(pid, tier, m, rule, t0, min_nontrivial=2, assumptions=None, extra=Non
         ev['coverage']['infrastructure_errors'] = m.errors[:3]
         if status == 0:
             status = 2
-    if status == 0 and len(m.nontrivial) < min_nontrivial:
-        print('INFRASTRUCTURE ERROR: %s decided only %d distinct non-trivial cases (< %d required)' % (pid, len(m.nontrivial), min_nontrivial), file=sys.stderr)
+    if status == 0 and ndist < min_nontrivial:
+        print('INFRASTRUCTURE ERROR: %s decided only %d distinct non-trivial cases (< %d required)' % (pid, ndist, min_nontrivial), file=sys.stderr)
         status = 2
     os.makedirs(EVIDENCE, exist_ok=True)
     with open(os.path.join(EVIDENCE, pid + '.json'), 'w') as f:
         json.dump(ev, f, indent=1, sort_keys=True)
         f.write('\n')
     print('%s tier=%s seed=%d evaluations=%d distinct_nontrivial=%d known_hits=%d inconclusive=%d violations=%d wall=%.1fs' % (
-        pid, tier, seed(), m.evals, len(m.nontrivial), sum(m.known.values()), m.inconclusive, len(m.violations), wall))
+        pid, tier, seed(), m.evals, ndist, sum(m.known.values()), m.inconclusive, len(m.violations), wall))
     return status
